@@ -45,12 +45,12 @@ def mkSegIn (pr : Params) (p : Plan) (bs : Nat) (dflt : Float) (seg : Seg) : Seg
   if (qualified p).isEmpty then
     let sc := scanScores seg p dflt
     let fl := sc.map fun (d, s) => (d, some s)
-    { inp := { terms := [], fin := sc.map fun (d, s) => (d, some (q s)), scan := true }
+    { inp := { terms := [], fin := sc.map fun (d, s) => (d, some (q s)), scan := true, hook := p.tree.custom }
       fl := fl, neg := sc.any fun (_, s) => s < 0.0 }
   else
     let ts := segTerms seg p
     let fl := finF pr seg p ts
-    { inp := { terms := ts.map (mkTerm pr seg bs), fin := fl.map fun (d, o) => (d, o.map q) }
+    { inp := { terms := ts.map (mkTerm pr seg bs), fin := fl.map fun (d, o) => (d, o.map q), hook := p.tree.custom }
       fl := fl
       neg := fl.any fun (_, o) => match o with | some s => s < 0.0 | none => false }
 
